@@ -18,7 +18,7 @@ func init() {
 	register(&Check{
 		ID: "C12", Level: "exploration", Primary: "orders", EvalCount: "fences_checked", RaceIsViolation: true,
 		Rule: "one evaluation = a fresh server, a PRNG-chosen order of Stop relative to Run (Stop before Run; Stop 0-300us after Run was started; Stop after Ready) and, when serving, a PRNG-chosen connection state " +
-			"(connect storm with accepts in flight, handlers parked and released by a timer only after Stop was called - 5..45ms later, now and then 1.2..2.6s later -, ldaps sessions ended with close_notify / bare FIN / reset just before Stop next to plaintext peers the listener refused during the handshake (accepted connections all the same: OnClose is owed for them), slow OnClose callback held 20-120ms (every tenth time 3.3-4.8s) by the harness, clients tearing down, idle connections, handlers whose client hung up, handlers whose session ended with an Unbind, handlers whose connection ran into the server's read timeout, a held unbind-route handler, ldaps handlers parked, an OnClose callback still running while no connection is open any more), " +
+			"(connect storm with accepts in flight, handlers parked and released by a timer only after Stop was called - 5..45ms later, now and then 1.2..2.6s later -, ldaps sessions ended with close_notify / bare FIN / reset just before Stop next to plaintext peers the listener refused during the handshake (accepted connections all the same: OnClose is owed for them), slow OnClose callback held 20-120ms (every tenth time 3.3-4.8s) by the harness, clients tearing down, clients that closed their sending direction and go on reading, idle connections, handlers whose client hung up, handlers whose session ended with an Unbind, handlers whose connection ran into the server's read timeout, a held unbind-route handler, ldaps handlers parked, an OnClose callback still running while no connection is open any more), " +
 			"optionally a concurrent or later second Stop. At the fence (the instant both Stop and Run have returned) the monitor requires: no handler in flight, no OnClose in progress, one completed OnClose for every " +
 			"connection ID a handler ever saw, every served client connection closed, dial refused, the address bindable again; and over a 300ms tail no event stamped after the fence. Runs under the race detector. " +
 			"distinct_nontrivial = distinct (order, state, second-Stop, observed Ready-at-Stop) combinations",
@@ -26,7 +26,7 @@ func init() {
 		Phases: func(tier string, seed int64) []Phase {
 			return []Phase{{Name: "fences", Race: true, Run: c12Run}}
 		},
-		MinObserved: []string{"fences_checked", "order/stop-before-run", "order/race-startup", "order/after-ready", "runs_with_handlers_parked_at_stop", "runs_with_onclose_slow", "runs_with_connect_storm", "runs_with_tls_sessions_torn_down", "tls_sessions_served_before_stop", "runs_with_parked_handlers_whose_client_hung_up", "runs_with_an_unbind_handler_held_at_stop", "runs_with_tls_handlers_parked_at_stop", "runs_with_onclose_held_for_seconds", "runs_with_an_onclose_callback_running_and_no_connection_open_at_stop", "runs_with_handlers_held_more_than_a_second_after_stop", "runs_with_parked_handlers_whose_session_ended_with_an_unbind", "tls_listener_connections_refused_during_the_handshake", "runs_on_a_server_without_panic_recovery_with_handlers_parked_at_stop", "runs_with_handlers_parked_beyond_the_read_timeout"},
+		MinObserved: []string{"fences_checked", "order/stop-before-run", "order/race-startup", "order/after-ready", "runs_with_handlers_parked_at_stop", "runs_with_onclose_slow", "runs_with_connect_storm", "runs_with_tls_sessions_torn_down", "tls_sessions_served_before_stop", "runs_with_parked_handlers_whose_client_hung_up", "runs_with_an_unbind_handler_held_at_stop", "runs_with_tls_handlers_parked_at_stop", "runs_with_onclose_held_for_seconds", "runs_with_an_onclose_callback_running_and_no_connection_open_at_stop", "runs_with_handlers_held_more_than_a_second_after_stop", "runs_with_parked_handlers_whose_session_ended_with_an_unbind", "tls_listener_connections_refused_during_the_handshake", "runs_on_a_server_without_panic_recovery_with_handlers_parked_at_stop", "runs_with_handlers_parked_beyond_the_read_timeout", "runs_with_clients_that_half_closed_before_stop"},
 	})
 }
 
@@ -59,7 +59,7 @@ func c12One(c *Ctx, r *Rand, idx int) {
 	order := pick(r, []string{"stop-before-run", "race-startup", "race-startup", "after-ready", "after-ready", "after-ready", "after-ready"})
 	state := "none"
 	if order == "after-ready" {
-		state = pick(r, []string{"storm", "parked", "slow-onclose", "teardown", "idle", "parked+slow-onclose", "storm+parked", "tls-teardown", "parked-hangup", "parked-unbind", "parked-beyond-read-timeout", "unbind-held", "tls-parked", "onclose-running-at-stop"})
+		state = pick(r, []string{"storm", "parked", "slow-onclose", "teardown", "idle", "parked+slow-onclose", "storm+parked", "tls-teardown", "parked-hangup", "parked-unbind", "parked-beyond-read-timeout", "half-closed-before-stop", "unbind-held", "tls-parked", "onclose-running-at-stop"})
 	}
 	second := pick(r, []string{"no", "concurrent", "later"})
 	var inflight, onclosing atomic.Int64
@@ -278,6 +278,19 @@ func c12One(c *Ctx, r *Rand, idx int) {
 			cmu.Unlock()
 			time.Sleep(time.Duration(r.Intn(3000)) * time.Microsecond)
 			c.Count("runs_with_parked_handlers_whose_client_hung_up", 1)
+		case "half-closed-before-stop":
+			// clients that have said all they had to say (they closed their sending direction) and go on reading: their
+			// connections are the server's to close - at the latest by the time Stop and Run have returned
+			for i := 0; i < 1+r.Intn(4); i++ {
+				if cn := dial(); cn != nil {
+					served(cn, "x")
+					if tc, ok := cn.(*net.TCPConn); ok {
+						tc.CloseWrite()
+					}
+				}
+			}
+			time.Sleep(time.Duration(r.Intn(5000)) * time.Microsecond)
+			c.Count("runs_with_clients_that_half_closed_before_stop", 1)
 		case "parked-beyond-read-timeout":
 			// the server has a read timeout and the clients fall silent while their handlers are parked: the read
 			// deadline expires long before Stop is called; the handlers are still the server's
